@@ -125,6 +125,29 @@ def check_skeletons(ctx):
 
 # ---------------------------------------------------------------- (c) partition
 
+def _in_run_vocabulary(e, gname):
+    """the expression is built only from the run, its members by constant index, integer
+    constants, ``len``, ``+``/``-`` and comprehensions over the run: the forms whose value the
+    partition rule can compare with the expected one"""
+    if isinstance(e, ast.Constant):
+        return isinstance(e.value, int)
+    if isinstance(e, ast.Name):
+        return True
+    if isinstance(e, ast.Subscript):
+        i = e.slice
+        if isinstance(i, ast.UnaryOp) and isinstance(i.op, ast.USub):
+            i = i.operand
+        return isinstance(i, ast.Constant) and isinstance(i.value, int) and _in_run_vocabulary(e.value, gname)
+    if isinstance(e, ast.BinOp) and isinstance(e.op, (ast.Add, ast.Sub)):
+        return _in_run_vocabulary(e.left, gname) and _in_run_vocabulary(e.right, gname)
+    if isinstance(e, ast.Call) and isinstance(e.func, ast.Name) and e.func.id in ('len', 'list', 'tuple') and len(e.args) == 1 and not e.keywords:
+        return _in_run_vocabulary(e.args[0], gname)
+    if isinstance(e, (ast.ListComp, ast.GeneratorExp)) and len(e.generators) == 1 and not e.generators[0].ifs:
+        g = e.generators[0]
+        return isinstance(g.target, (ast.Name, ast.Tuple)) and _in_run_vocabulary(g.iter, gname) and _in_run_vocabulary(e.elt, gname)
+    return False
+
+
 def check_partition(ctx):
     repo = ctx.repo
     cg = repo.cls('CodeGenerator')
@@ -202,8 +225,12 @@ def check_partition(ctx):
                 st = '%s: zip(range(%s, %s), %s)' % (mname, lo, hi, names)
                 if lo == 'G[0][0]' and hi == '(G[(-1)][0] + 1)' and names in ('[_v0[1] for _v0 in G]', '(_v0[1] for _v0 in G)', 'list((_v0[1] for _v0 in G))', 'tuple((_v0[1] for _v0 in G))'):
                     ctx.holds(rule, fi, st, 'one block per member of the run, indexed by its position', z.lineno, clause='c')
-                else:
+                elif all(_in_run_vocabulary(x, gname) for x in (r.args[0], r.args[1], z.args[1])) if len(r.args) == 2 else False:
                     ctx.violation(rule, fi, st, 'the indices emitted do not cover exactly the positions of the run (expected range(group[0][0], group[-1][0] + 1) zipped with the run\'s names)', z.lineno, clause='c')
+                else:
+                    # the members of the run are read in a form the rule does not know (records with
+                    # named parts, a helper): nothing is established either way
+                    ctx.undecided(rule, fi, st, 'the positions and names of the run are read in a form the rule cannot compare with range(group[0][0], group[-1][0] + 1) zipped with the run\'s names', z.lineno, clause='c')
                 enum_ok = True
         alt = [x for x in ast.walk(fi.node) if isinstance(x, (ast.ListComp, ast.GeneratorExp)) and canon(x.generators[0].iter, {gname: 'G'}) == 'G' and not x.generators[0].ifs]
         alt += [x for x in ast.walk(fi.node) if isinstance(x, ast.For) and canon(x.iter, {gname: 'G'}) == 'G'
@@ -1318,6 +1345,10 @@ def check(ctx):
     # indexed as the list get_sync_*_methods() returns them (C17-c): the generic loop does
     from .c17 import check_generated_sync
     check_generated_sync(ctx)
+    # Round 9.  the generated block writes pkt.<name it is listed under>, the field loop writes
+    # self.field_name: the same attribute (C17 b'), else one of them goes through a descriptor
+    from .c17 import check_described_names
+    check_described_names(ctx)
     # what the class runs is the text generated for it: a module taken from the cache is installed
     # only after its cookie was compared (C15 V); otherwise the class silently runs the drivers of
     # another declaration while its generic twin is right
